@@ -9,6 +9,7 @@ except ImportError:      # replays run under the repository's interpreter, witho
     z3 = None
 
 from . import frontend
+from . import regex  # noqa: F401  (registers the assumed contract of re.Pattern.match)
 from .api import Ty, Contract
 from .interp import Interp, PyRaise, Closure, BoundMethod
 from .loops import _call_pred, _param_names
